@@ -161,7 +161,26 @@ static void h_held(int argc, char **argv)
     mc_outcome("ok");
 }
 
+/* trypub: while a consumer is parked in p_cond_variable_wait nobody holds the mutex, so a publisher that takes it with
+ * p_mutex_trylock must get it after finitely many attempts (wait really released the mutex, for every way of looking at it) */
+static int tp_ready, tp_done, tp_waiting;
+static void *tp_consumer(void *arg) { (void)arg; p_mutex_lock(m); tp_waiting = 1; while (!tp_ready) wait_checked(cv_items); tp_done = 1; p_mutex_unlock(m); return NULL; }
+static void h_trypub(int argc, char **argv)
+{
+    int t, published = 0; (void)argc; (void)argv;
+    setup();
+    t = mc_thread_create(tp_consumer, NULL);
+    while (!published) {          /* the publisher only ever uses trylock; a trylock that can never succeed shows up as a livelock */
+        if (p_mutex_trylock(m)) { if (tp_waiting) { tp_ready = 1; p_cond_variable_signal(cv_items); published = 1; } p_mutex_unlock(m); }
+        if (!published) p_uthread_yield();
+    }
+    mc_thread_join(t);
+    if (!tp_done) mc_fail("C03", "trypub/not-consumed", "consumer did not see the event");
+    teardown();
+    mc_outcome("ok");
+}
+
 static const McHarness HS[] = {
-    {"bb", h_bb, "<producers> <consumers> <items>"}, {"gate", h_gate, "<waiters>"}, {"unlocked", h_unlocked, "<waiters> [i]"}, {"held", h_held, ""},
+    {"bb", h_bb, "<producers> <consumers> <items>"}, {"gate", h_gate, "<waiters>"}, {"unlocked", h_unlocked, "<waiters> [i]"}, {"held", h_held, ""}, {"trypub", h_trypub, ""},
 };
-int main(int argc, char **argv) { return mc_main(argc, argv, HS, 4); }
+int main(int argc, char **argv) { return mc_main(argc, argv, HS, 5); }
